@@ -269,9 +269,10 @@ def exec (iface : Bool) (st : State) : Op → Res
   | .tfromMap dst kvs =>
     match allSome (kvs.map (fun kv => (findStrArg st kv.2).map (fun p => (kv.1, p)))) with
     | some es =>
-      let nilV := if iface then Val.int Spec.nilCode else Val.str none
-      let (w, p) := st.w.ssFromMap (Spec.ofPairs (es.map (fun e => (e.1, match e.2 with
-        | some q => Val.str (some q) | none => nilV))))
+      -- interface{} family: a nil *StreamForInterfaceDef stored in an interface{} is a typed nil, outside
+      -- the modelled universe (the harness refuses it as well)
+      if iface && es.any (fun e => e.2.isNone) then .err "bad-op" else
+      let (w, p) := st.w.ssFromMap (Spec.ofPairs (es.map (fun e => (e.1, Val.str e.2))))
       .ok w (some (dst, .sset p)) "ok"
     | none => .err "bad-ref"
   | .m1 dst src k =>
